@@ -7,14 +7,16 @@ starts it with /venv/bin/python, its own PYTHONHASHSEED and PYTHONPATH=<GALLIA_S
     c16_child.py JOB.json OUT.json
 
 JOB = {"variant": {"name", "import_first": "server"|"commands", "clock_base": float,
-                   "global_seed": int|None, "via_config": bool, "reverse": bool},
+                   "global_seed": int|None, "via_config": bool, "reverse": bool, "mutant": None|"global_rng"},
        "cases": [{"id", "seed", "params": {...RandomnessParameters...},
-                  "behavior": {...Behavior...}, "hist": {"tour": int, "full_sweep": bool}}]}
+                  "behavior": {...Behavior...}, "hist": {"tour", "cap", "sa_segments", "full_sweep"}}]}
 
 The child never judges anything: it dumps `server.services` after `setup()` and the
 transcript of `UDSServerTransport.handle_request` for a history that is a
 deterministic function of the dumped model (so equal models => equal histories;
-TLC checks that, clause H0).  Wall clock is kept out of play: `time.time` is
+TLC checks that, clause H0).  The history consists of segments, each answered by a
+freshly built server (same seed, same arguments); the challenge/response segments
+send keys derived from the seed just received (TLC checks that too, clause H1).  Wall clock is kept out of play: `time.time` is
 replaced by a virtual clock BEFORE gallia is imported, so the 10 s inactivity
 reset of `handle_request` never fires and start time differs per variant.
 """
@@ -69,15 +71,19 @@ def bfs_paths(model: list[dict]) -> dict[int, list[int]]:
     return paths
 
 
+def sa_block(sf: int) -> list[tuple]:
+    return [lit([0x27, sf]), ("bad", sf + 1), lit([0x27, sf]), ("key", sf + 1), lit(b"\x22\xf1\x86"),
+            ("key", sf + 1),  # no seed outstanding any more
+            lit([0x27, sf]), lit(b"\x3e\x00"), ("key", sf + 1),  # tester present does not cancel
+            lit([0x27, sf]), lit(b"\x22\xf1\x90"), ("key", sf + 1),  # another request cancels
+            lit([0x27, sf]), ("key", (sf + 3) % 0x80), lit([0x27, sf, 0x00]), ("key", sf + 1)]
+
+
 def service_block(sid: int, has_sf: bool, sfs: list[int]) -> list[tuple]:
     out: list[tuple] = []
     if sid == 0x27:
         for sf in [x for x in sfs if x % 2 == 1][:3]:
-            out += [lit([0x27, sf]), ("bad", sf + 1), lit([0x27, sf]), ("key", sf + 1), lit(b"\x22\xf1\x86"),
-                    ("key", sf + 1),  # no seed outstanding any more
-                    lit([0x27, sf]), lit(b"\x3e\x00"), ("key", sf + 1),  # tester present does not cancel
-                    lit([0x27, sf]), lit(b"\x22\xf1\x90"), ("key", sf + 1),  # other request cancels
-                    lit([0x27, sf]), ("key", (sf + 3) % 0x80), lit([0x27, sf, 0x00])]
+            out += [lit([0x27, sf]), lit([0x27, sf + 1, 0x11]), lit([0x27, sf | 0x80]), lit([0x27, sf, 0x00])]
         out += [lit([0x27]), lit([0x27, 0x7F]), lit([0x27, 0x00]), lit([0x27, 0x02, 0x11])]
         return out
     if sid == 0x10:
@@ -103,7 +109,10 @@ def service_block(sid: int, has_sf: bool, sfs: list[int]) -> list[tuple]:
     return out
 
 
-def build_history(model: list[dict], hist: dict) -> list[tuple]:
+def build_history(model: list[dict], hist: dict) -> list[list[tuple]]:
+    """Order matters for precision only: challenge/response steps (whose outcome may
+    legitimately depend on a fresh seed) come last, so that a run pair that diverges
+    there for an allowed reason has already been compared on everything else."""
     steps: list[tuple] = []
     # A. sweep of every service id in the initial (default) session
     for sid in range(256):
@@ -120,30 +129,46 @@ def build_history(model: list[dict], hist: dict) -> list[tuple]:
     chosen = sessions[:ntour] + [s for s in sessions[-2:] if s not in sessions[:ntour]]
     by_s = {e["s"]: e for e in model}
     per_session_cap = int(hist.get("cap", 260))
+
+    def enter(s: int) -> list[tuple]:
+        # not reachable by the model's own DSC lists: still try the direct request
+        return [lit([0x10, t]) for t in (paths.get(s) or [s])]
+
     for s in chosen:
-        path = paths.get(s)
-        if path is None:
-            # not reachable by the model's own DSC lists: still try the direct request
-            path = [s]
-        for t in path:
-            steps.append(lit([0x10, t]))
+        steps += enter(s)
         steps.append(lit(b"\x22\xf1\x86"))
         block: list[tuple] = []
         for v in sorted(by_s[s]["svcs"], key=lambda v: v["id"]):
-            block += service_block(v["id"], v["hasSf"], list(v["sf"]))
+            if v["id"] != 0x27:
+                block += service_block(v["id"], v["hasSf"], list(v["sf"]))
         steps += block[:per_session_cap]
         for v in by_s[s]["svcs"]:
             if v["id"] == 0x11 and v["hasSf"]:
                 for sf in sorted(v["sf"])[:5]:
-                    steps += [lit([0x11, sf]), lit(b"\x22\xf1\x86")]
-                    for t in path:
-                        steps.append(lit([0x10, t]))
+                    steps += [lit([0x11, sf]), lit(b"\x22\xf1\x86")] + enter(s)
         steps += [lit([0x10, 0x81]), lit(b"\x22\xf1\x86"), lit([0x10, 0x01]), lit(b"\x3e\x80"), lit(b"\x3e\x00")]
     # C. a few requests that every configuration sees
-    steps += [lit(b"\x11\x01"), lit(b"\x11\x04"), lit(b"\x11\x81"), lit(b"\x27\x01"), ("key", 2), lit(b"\x27\x01"),
-              ("bad", 2), lit(b"\x19\x02\xff"), lit(b"\x14\xff\xff\xff"), lit(b"\x31\x01\x12\x34"),
-              lit(b"\x2e\xf1\x90\x41\x42"), lit(b"\x2f\x12\x34\x03"), lit(b"\x22\x12\x34"), lit(b"\x10\x01")]
-    return steps
+    steps += [lit(b"\x11\x01"), lit(b"\x11\x04"), lit(b"\x11\x81"), lit(b"\x19\x02\xff"), lit(b"\x14\xff\xff\xff"),
+              lit(b"\x31\x01\x12\x34"), lit(b"\x2e\xf1\x90\x41\x42"), lit(b"\x2f\x12\x34\x03"), lit(b"\x22\x12\x34"),
+              lit(b"\x10\x01")]
+    segments = [steps]
+    # D. security access (challenge/response with keys derived from the seed received):
+    #    one short history per (session, access type), each on a FRESH virtual ECU built
+    #    from the same seed and arguments
+    nseg = 0
+    for s in chosen:
+        sa = [v for v in by_s[s]["svcs"] if v["id"] == 0x27 and v["hasSf"] and v["sf"]]
+        if not sa:
+            continue
+        odd = [x for x in sa[0]["sf"] if x % 2 == 1]
+        for sf in odd[:2] + odd[-1:]:
+            if nseg >= int(hist.get("sa_segments", 6)):
+                break
+            nseg += 1
+            segments.append(enter(s) + sa_block(sf) + [lit(b"\x22\xf1\x86"), lit(b"\x22\x12\x34"),
+                                                       lit(b"\x19\x02\xff"), lit([0x10, 0x01])])
+    segments.append([lit(b"\x27\x01"), ("key", 2), lit(b"\x22\xf1\x86"), lit(b"\x27\x01"), ("bad", 2), lit(b"\x3e\x00")])
+    return segments
 
 
 # --------------------------------------------------------------------------
@@ -158,21 +183,31 @@ def dump_model(services: dict) -> list[dict]:
     return out
 
 
+def model_digest(model: list[dict]) -> list[int]:
+    import hashlib
+
+    canon = sorted((e["s"], sorted((v["id"], v["hasSf"], sorted(set(v["sf"]))) for v in e["svcs"])) for e in model)
+    return list(hashlib.sha256(json.dumps(canon).encode()).digest()[:16])
+
+
 async def run_case(S, case: dict, variant: dict) -> dict:  # noqa: ANN001
     import random
 
     from gallia.services.uds.core.constants import UDSIsoServices
+    from gallia.transports import TargetURI
 
     p = dict(case["params"])
     for k in ("mandatory_services", "optional_services"):
         if k in p:
             p[k] = [UDSIsoServices(x) for x in p[k]]
     out: dict = {"id": case["id"]}
-    try:
+
+    async def fresh():  # noqa: ANN202
         if variant.get("via_config"):
             from gallia.commands.script.vecu import RngVirtualECU, RngVirtualECUConfig
 
-            cfg = RngVirtualECUConfig(target="unix-lines:///nonexistent/c16.sock", seed=case["seed"], **p, **case["behavior"])
+            cfg = RngVirtualECUConfig(target="unix-lines:///nonexistent/c16.sock", seed=case["seed"], **p,
+                                      **case["behavior"])
             server = RngVirtualECU(cfg)._server()
         else:
             server = S.RandomUDSServer(case["seed"], S.RandomUDSServer.RandomnessParameters(**p),
@@ -180,38 +215,49 @@ async def run_case(S, case: dict, variant: dict) -> dict:  # noqa: ANN001
         if variant.get("global_seed") is not None:
             random.seed(variant["global_seed"] * 7919 + 1)
         await server.setup()
+        return server
+
+    try:
+        server = await fresh()
     except Exception as e:  # noqa: BLE001
         out["setup_exc"] = f"{type(e).__name__}: {e}"[:300]
         return out
     model = dump_model(server.services)
     out["model"] = model
-    from gallia.transports import TargetURI
-
-    tr = S.UDSServerTransport(server, TargetURI("unix-lines:///nonexistent/c16.sock"))
-    last_seed: bytes = b""
     trace = []
     n = 0
-    for kind, arg in build_history(model, case.get("hist", {})):
-        if kind == "lit":
-            q = arg
-        elif kind == "key":
-            q = bytes([0x27, arg]) + last_seed
-        else:
-            q = bytes([0x27, arg]) + last_seed + b"\x5a"
-        n += 1
-        if variant.get("global_seed") is not None and n % 97 == 0:
-            random.seed(variant["global_seed"] + n)
-        try:
-            r, _dt = await tr.handle_request(q)
-            if r is None:
-                step = {"q": list(q), "k": kind, "o": "n", "r": []}
+    for si, segment in enumerate(build_history(model, case.get("hist", {}))):
+        if si > 0:
+            try:
+                server = await fresh()
+            except Exception as e:  # noqa: BLE001
+                trace.append({"q": [], "k": "new", "o": "x", "r": [], "x": type(e).__name__})
+                break
+        # pseudo step: a new virtual ECU (same seed, same arguments) was started; its "answer" is a digest of its model
+        trace.append({"q": [], "k": "new", "o": "r", "r": model_digest(dump_model(server.services))})
+        tr = S.UDSServerTransport(server, TargetURI("unix-lines:///nonexistent/c16.sock"))
+        last_seed: bytes = b""
+        for kind, arg in segment:
+            if kind == "lit":
+                q = arg
+            elif kind == "key":
+                q = bytes([0x27, arg]) + last_seed
             else:
-                step = {"q": list(q), "k": kind, "o": "r", "r": list(r)}
-                if len(q) >= 2 and q[0] == 0x27 and len(r) >= 2 and r[0] == 0x67 and r[1] % 2 == 1:
-                    last_seed = bytes(r[2:])
-        except Exception as e:  # noqa: BLE001
-            step = {"q": list(q), "k": kind, "o": "x", "r": [], "x": type(e).__name__}
-        trace.append(step)
+                q = bytes([0x27, arg]) + last_seed + b"\x5a"
+            n += 1
+            if variant.get("global_seed") is not None and n % 97 == 0:
+                random.seed(variant["global_seed"] + n)
+            try:
+                r, _dt = await tr.handle_request(q)
+                if r is None:
+                    step = {"q": list(q), "k": kind, "o": "n", "r": []}
+                else:
+                    step = {"q": list(q), "k": kind, "o": "r", "r": list(r)}
+                    if len(q) >= 1 and q[0] == 0x27 and len(r) >= 2 and r[0] == 0x67 and r[1] % 2 == 1:
+                        last_seed = bytes(r[2:])
+            except Exception as e:  # noqa: BLE001
+                step = {"q": list(q), "k": kind, "o": "x", "r": [], "x": type(e).__name__}
+            trace.append(step)
     out["tr"] = trace
     out["final_session"] = int(server.state.session)
     return out
@@ -232,6 +278,14 @@ def main() -> None:
         import gallia.commands  # noqa: F401
         import gallia.commands.script.vecu  # noqa: F401
     import gallia.services.uds.server as S
+
+    if variant.get("mutant") == "global_rng":
+        # binding self-test only: a generator that draws from the GLOBAL random module
+        class GlobalRNG(S.RNG):  # type: ignore[misc,name-defined]
+            def random(self) -> float:
+                return random.random()
+
+        S.RNG = GlobalRNG  # type: ignore[misc]
 
     import asyncio
 
